@@ -243,7 +243,8 @@ def _check(case, params, X, n, p, msl, mil, Xtrain, Xpred, history):
 FACETS = [
     Facet(name="circular_binseg", check=check, strategy=cases,
           rule=("n in [2msl,30], msl from the scorer's minimum size, max_interval_length in [2msl, 2msl+14] or 1000, growth factor "
-                "in (1,2], threshold scales {0,.2,.5,1,2,None}; local scores from L2 / GaussianVar / user L1 costs on structured "
-                "data and integer Table/Function local scores (ties); non-trivial = >= 1 anomaly"),
+                "in (1,2], threshold scales {0,.2,.5,1,2,None}; local scores from L2 / GaussianVar / GaussianCov / user L1 costs on structured "
+                "data in small / large units and integer Table/Function local scores (ties; long series 150-240 with a function score); detector optionally fitted on other data (shorter / longer / the same buffer refilled afterwards) and optionally with a past (scorer pre-fitted on wider data; earlier predict on the caller's array / frame, then refilled in place); "
+                "non-trivial = >= 1 anomaly"),
           n_quick=480, n_thorough=6000, shards_quick=16, shards_thorough=16),
 ]
